@@ -1,17 +1,28 @@
 (* SaveFacts.v — C16 "saving round-trips" and C17 "search-and-replace"
    (facts about model/Save.v).
 
-   Proved as stated: save_copies_exact, save_copy_sound, save_written_exact,
-   save_names (exists! form; save_names_count is the count_occ form it is
-   derived from), save_duplicate_refuted, splitlines_join (its hypothesis
+   save() writes a part ONCE when several relationships point at it
+   (by_path = {x.path: x for x in content_files}): one member per distinct
+   path among the rewritten Files, at the position of the first File with
+   that path, holding the tree of the LAST such File.
+
+   Proved: save_copies_exact, save_copy_sound, save_copy_not_overwritten
+   (statements unchanged by the fix), save_written_exact (new statement: one
+   written member per distinct rewritten path, in order of first occurrence,
+   whose tree is `roots` of the last File with that path),
+   save_written_paths_nodup (no hypothesis), save_names_once_count /
+   save_names_once (no distinctness hypothesis on the rewritten Files),
+   save_names_once_necessary (the remaining hypothesis is necessary),
+   save_names_once_roots / save_names_once_save / replace_docx_names_once
+   (the hypothesis is automatic when the save succeeds), save_names_count and
+   save_names (old statements, still true, now corollaries),
+   save_duplicate_repaired (replaces save_duplicate_refuted, which is false
+   after the fix), save_shared_header_example; splitlines_join (its hypothesis
    s <> [] is not used), splitlines_trailing_newline_lost, splitlines_empty,
    replace_node_hit, replace_node_frame, replace_root_frame, interleave_text,
-   replace_text_commutes.
-   Nothing was found false.  The two placeholder statements of the task are
-   replaced by real ones: splitlines_join_trailing_lost / splitlines_join_trailing
-   (a single trailing "\n" is dropped, for every s that does not itself end
-   in "\n"), and replace_node_frame / replace_root_frame_kids /
-   replace_all_frame.  Extras: save_copy_not_overwritten, replace_text_general. *)
+   replace_text_commutes, splitlines_join_trailing_lost /
+   splitlines_join_trailing, replace_root_frame_kids / replace_all_frame,
+   replace_text_general. *)
 From Coq Require Import List NArith ZArith Bool Arith Lia Permutation.
 From Coq Require String.
 From D2P Require Import Str Err Xml TableTypes Tables Fmt Bullets Merge Collector Walk Iter
@@ -39,16 +50,36 @@ Proof.
     + destruct (IH _ eq_refl _ Hy) as [x' [Hin Hf]]. exists x'; split; auto. right; auto.
 Qed.
 
-Lemma written_names : forall (roots : frec -> res anode) l ys,
-  mapM (fun f => t <- roots f ;; Ok (f_path f, WXml t)) l = Ok ys ->
-  map fst ys = map f_path l.
+Lemma mapM_fwd : forall A B (f : A -> res B) l ys,
+  mapM f l = Ok ys -> forall x, In x l -> exists y, f x = Ok y /\ In y ys.
 Proof.
-  induction l as [|x r IH]; intros ys H; simpl in H.
-  - inversion H; reflexivity.
-  - destruct (roots x) as [t|]; simpl in H; [|discriminate].
-    destruct (mapM (fun f => t0 <- roots f ;; Ok (f_path f, WXml t0)) r) as [ys0|] eqn:Hr;
-      simpl in H; [|discriminate].
-    inversion H; subst. simpl. f_equal. apply IH; auto.
+  induction l as [|x0 r IH]; intros ys H x Hx; [destruct Hx|]. simpl in H.
+  destruct (f x0) as [y0|] eqn:Hx0; simpl in H; [|discriminate].
+  destruct (mapM f r) as [ys0|] eqn:Hr; simpl in H; [|discriminate].
+  inversion H; subst. destruct Hx as [<-|Hx].
+  - exists y0. split; [exact Hx0|left; reflexivity].
+  - destruct (IH _ eq_refl _ Hx) as [y [Hy Hin]]. exists y. split; [exact Hy|right; exact Hin].
+Qed.
+
+Lemma mem_str_false_not_In : forall s l, mem_str s l = false <-> ~ In s l.
+Proof.
+  intros s l. split.
+  - intros H Hin. apply mem_str_In in Hin. congruence.
+  - intros H. destruct (mem_str s l) eqn:E; auto. apply mem_str_In in E. contradiction.
+Qed.
+
+Lemma mem_str_app : forall s l1 l2, mem_str s (l1 ++ l2) = mem_str s l1 || mem_str s l2.
+Proof.
+  intros s l1 l2. induction l1 as [|x r IH]; cbn [app mem_str]; [reflexivity|].
+  rewrite IH. apply orb_assoc.
+Qed.
+
+Lemma mem_str_ext : forall l1 l2, (forall x, In x l1 <-> In x l2) ->
+  forall s, mem_str s l1 = mem_str s l2.
+Proof.
+  intros l1 l2 H s. destruct (mem_str s l1) eqn:E1, (mem_str s l2) eqn:E2; try reflexivity.
+  - apply mem_str_In in E1. apply H in E1. apply mem_str_In in E1. congruence.
+  - apply mem_str_In in E2. apply H in E2. apply mem_str_In in E2. congruence.
 Qed.
 
 (* ---------- index_members ---------- *)
@@ -78,20 +109,226 @@ Proof.
   induction a as [|[n m] r IH]; intros k; simpl; [reflexivity|]. f_equal. apply IH.
 Qed.
 
+(* ================================================================== *)
+(* by_path = {x.path: x for x in content_files}                         *)
+(* ================================================================== *)
+Definition by_path (content : list frec) : list (str * frec) :=
+  fold_left (fun d f => dict_set (f_path f) f d) content [].
+
+(* the LAST File of the list with that path (cf. zread) *)
+Fixpoint last_with_path (p : str) (l : list frec) : option frec :=
+  match l with
+  | [] => None
+  | x :: r =>
+      match last_with_path p r with
+      | Some f => Some f
+      | None => if str_eqb (f_path x) p then Some x else None
+      end
+  end.
+
+Lemma last_with_path_Some : forall p l f,
+  last_with_path p l = Some f -> In f l /\ f_path f = p.
+Proof.
+  induction l as [|x r IH]; intros f H; cbn [last_with_path] in H; [discriminate|].
+  destruct (last_with_path p r) as [g|] eqn:Hr.
+  - inversion H; subst g. destruct (IH _ eq_refl) as [Hin Hp]. split; [right; exact Hin|exact Hp].
+  - destruct (str_eqb (f_path x) p) eqn:E; [|discriminate]. inversion H; subst x.
+    split; [left; reflexivity|]. apply str_eqb_eq. exact E.
+Qed.
+
+Lemma last_with_path_None : forall p l,
+  last_with_path p l = None -> forall g, In g l -> f_path g <> p.
+Proof.
+  induction l as [|x r IH]; intros H g Hg; [destruct Hg|]. cbn [last_with_path] in H.
+  destruct (last_with_path p r) as [g'|] eqn:Hr; [discriminate|].
+  destruct (str_eqb (f_path x) p) eqn:E; [discriminate|].
+  destruct Hg as [<-|Hg]; [apply str_eqb_neq; exact E|apply IH; auto].
+Qed.
+
+(* it really is the last one: no File after it has that path *)
+Lemma last_with_path_spec : forall p l f,
+  last_with_path p l = Some f ->
+  exists l1 l2, l = l1 ++ f :: l2 /\ f_path f = p /\ forall g, In g l2 -> f_path g <> p.
+Proof.
+  induction l as [|x r IH]; intros f H; cbn [last_with_path] in H; [discriminate|].
+  destruct (last_with_path p r) as [g|] eqn:Hr.
+  - inversion H; subst g. destruct (IH _ eq_refl) as [l1 [l2 [-> [Hp Hl2]]]].
+    exists (x :: l1), l2. split; [reflexivity|]. split; assumption.
+  - destruct (str_eqb (f_path x) p) eqn:E; [|discriminate]. inversion H; subst x.
+    exists [], r. split; [reflexivity|]. split; [apply str_eqb_eq; exact E|].
+    apply last_with_path_None. exact Hr.
+Qed.
+
+Lemma last_with_path_In : forall l f, In f l -> exists f', last_with_path (f_path f) l = Some f'.
+Proof.
+  induction l as [|x r IH]; intros f Hf; [destruct Hf|]. cbn [last_with_path].
+  destruct (last_with_path (f_path f) r) as [g|] eqn:Hr; [exists g; reflexivity|].
+  destruct Hf as [->|Hf].
+  - rewrite str_eqb_refl. exists f; reflexivity.
+  - destruct (IH _ Hf) as [f' Hf']. congruence.
+Qed.
+
+(* ---------- the keys: distinct paths in order of first occurrence ---------- *)
+Lemma dict_set_fst : forall {V} k (v : V) d,
+  map fst (dict_set k v d) = if mem_str k (map fst d) then map fst d else map fst d ++ [k].
+Proof.
+  intros V k v. induction d as [|[k' v'] r IH]; cbn [dict_set map fst mem_str app]; [reflexivity|].
+  destruct (str_eqb k k') eqn:E; cbn [map fst orb].
+  - apply str_eqb_eq in E. subst k'. reflexivity.
+  - rewrite IH. destruct (mem_str k (map fst r)); reflexivity.
+Qed.
+
+Lemma dedup_names_ext : forall l s1 s2, (forall x, mem_str x s1 = mem_str x s2) ->
+  dedup_names l s1 = dedup_names l s2.
+Proof.
+  induction l as [|y r IH]; intros s1 s2 H; cbn [dedup_names]; [reflexivity|].
+  rewrite (H y). destruct (mem_str y s2).
+  - apply IH. exact H.
+  - f_equal. apply IH. intros x. cbn [mem_str]. rewrite (H x). reflexivity.
+Qed.
+
+Lemma dedup_names_In : forall l seen x,
+  In x (dedup_names l seen) <-> In x l /\ mem_str x seen = false.
+Proof.
+  induction l as [|y r IH]; intros seen x; cbn [dedup_names].
+  - split; [intros []|intros [[] _]].
+  - destruct (mem_str y seen) eqn:E.
+    + rewrite IH. split.
+      * intros [Hin Hm]. split; [right; exact Hin|exact Hm].
+      * intros [[->|Hin] Hm]; [congruence|]. split; assumption.
+    + cbn [In]. rewrite IH. cbn [mem_str]. split.
+      * intros [->|[Hin Hm]]; [split; [left; reflexivity|exact E]|].
+        apply orb_false_elim in Hm. destruct Hm as [_ Hm]. split; [right; exact Hin|exact Hm].
+      * intros [[->|Hin] Hm]; [left; reflexivity|].
+        destruct (str_eq_dec y x) as [->|Hne]; [left; reflexivity|]. right.
+        split; [exact Hin|]. rewrite Hm, orb_false_r. apply str_eqb_neq. congruence.
+Qed.
+
+Lemma dedup_names_NoDup : forall l seen, NoDup (dedup_names l seen).
+Proof.
+  induction l as [|y r IH]; intros seen; cbn [dedup_names]; [constructor|].
+  destruct (mem_str y seen) eqn:E; [apply IH|]. constructor; [|apply IH].
+  intros Hin. apply dedup_names_In in Hin. destruct Hin as [_ Hm].
+  cbn [mem_str] in Hm. rewrite str_eqb_refl in Hm. discriminate.
+Qed.
+
+Lemma dedup_names_nil_In : forall l x, In x (dedup_names l []) <-> In x l.
+Proof.
+  intros l x. rewrite dedup_names_In. cbn [mem_str]. split; [intros [H _]; exact H|auto].
+Qed.
+
+Lemma by_path_keys_gen : forall l (d : list (str * frec)),
+  map fst (fold_left (fun d f => dict_set (f_path f) f d) l d)
+  = map fst d ++ dedup_names (map f_path l) (map fst d).
+Proof.
+  induction l as [|x r IH]; intros d; cbn [fold_left map dedup_names].
+  - rewrite app_nil_r. reflexivity.
+  - rewrite IH, dict_set_fst. destruct (mem_str (f_path x) (map fst d)) eqn:E; [reflexivity|].
+    rewrite <- app_assoc. cbn [app]. f_equal. f_equal. apply dedup_names_ext. intros y.
+    rewrite mem_str_app. cbn [mem_str]. rewrite orb_false_r. apply orb_comm.
+Qed.
+
+Lemma by_path_keys : forall l, map fst (by_path l) = dedup_names (map f_path l) [].
+Proof. intros l. unfold by_path. rewrite by_path_keys_gen. reflexivity. Qed.
+
+Lemma by_path_NoDup : forall l, NoDup (map fst (by_path l)).
+Proof. intros l. rewrite by_path_keys. apply dedup_names_NoDup. Qed.
+
+Lemma by_path_keys_In : forall l p, In p (map fst (by_path l)) <-> In p (map f_path l).
+Proof. intros l p. rewrite by_path_keys. apply dedup_names_nil_In. Qed.
+
+Lemma by_path_mem : forall l p, mem_str p (map fst (by_path l)) = mem_str p (map f_path l).
+Proof. intros l p. apply mem_str_ext. intros x. apply by_path_keys_In. Qed.
+
+(* ---------- the values: the last File with that path ---------- *)
+Lemma by_path_get_gen : forall l (d : list (str * frec)) p,
+  dict_get p (fold_left (fun d f => dict_set (f_path f) f d) l d)
+  = match last_with_path p l with Some f => Some f | None => dict_get p d end.
+Proof.
+  induction l as [|x r IH]; intros d p; cbn [fold_left last_with_path]; [reflexivity|].
+  rewrite IH. destruct (last_with_path p r) as [g|]; [reflexivity|].
+  rewrite dict_get_set, (str_eqb_sym p (f_path x)).
+  destruct (str_eqb (f_path x) p); reflexivity.
+Qed.
+
+Lemma by_path_get : forall l p, dict_get p (by_path l) = last_with_path p l.
+Proof.
+  intros l p. unfold by_path. rewrite by_path_get_gen.
+  destruct (last_with_path p l); reflexivity.
+Qed.
+
+Lemma in_nodup_dict_get : forall {V} (d : list (str * V)) k v,
+  NoDup (map fst d) -> In (k, v) d -> dict_get k d = Some v.
+Proof.
+  intros V. induction d as [|[k0 v0] r IH]; intros k v Hnd Hin; [destruct Hin|].
+  cbn [map fst] in Hnd. inversion Hnd as [|? ? Hnot Hnd']; subst. cbn [dict_get].
+  destruct Hin as [E|Hin].
+  - inversion E; subst. rewrite str_eqb_refl. reflexivity.
+  - destruct (str_eqb k k0) eqn:E; [|apply IH; assumption].
+    apply str_eqb_eq in E. subst k0. exfalso. apply Hnot.
+    apply in_map_iff. exists (k, v). split; [reflexivity|exact Hin].
+Qed.
+
+Lemma dict_get_In : forall {V} (d : list (str * V)) k v, dict_get k d = Some v -> In (k, v) d.
+Proof.
+  intros V. induction d as [|[k0 v0] r IH]; intros k v H; cbn [dict_get] in H; [discriminate|].
+  destruct (str_eqb k k0) eqn:E.
+  - apply str_eqb_eq in E. subst k0. inversion H; subst. left; reflexivity.
+  - right. apply IH. exact H.
+Qed.
+
+Lemma by_path_In : forall l p f, In (p, f) (by_path l) <-> last_with_path p l = Some f.
+Proof.
+  intros l p f. rewrite <- by_path_get. split.
+  - apply in_nodup_dict_get. apply by_path_NoDup.
+  - apply dict_get_In.
+Qed.
+
 (* ---------- the shape of the result ---------- *)
+Definition wxml_of (roots : frec -> res anode) (pf : str * frec) : res (str * wmember) :=
+  t <- roots (snd pf) ;; Ok (fst pf, WXml t).
+
 Lemma save_with_shape : forall a fs roots out,
   save_with a fs roots = Ok out ->
   exists written,
-    mapM (fun f => t <- roots f ;; Ok (f_path f, WXml t)) (filter is_overwritten fs) = Ok written
+    mapM (wxml_of roots) (by_path (filter is_overwritten fs)) = Ok written
     /\ out = map (fun ix => (snd ix, WCopy (fst ix)))
                (filter (fun ix => negb (mem_str (snd ix) (map f_path (filter is_overwritten fs))))
                        (index_members a 0%nat))
              ++ written.
 Proof.
   intros a fs roots out H. unfold save_with in H. fold is_overwritten in H.
-  destruct (mapM (fun f => t <- roots f ;; Ok (f_path f, WXml t)) (filter is_overwritten fs))
+  fold (by_path (filter is_overwritten fs)) in H. fold (wxml_of roots) in H.
+  destruct (mapM (wxml_of roots) (by_path (filter is_overwritten fs)))
     as [written|] eqn:Hw; simpl in H; [|discriminate].
-  inversion H; subst. exists written. split; reflexivity.
+  inversion H; subst. exists written. split; [reflexivity|]. f_equal. f_equal.
+  apply filter_ext. intros ix. rewrite by_path_mem. reflexivity.
+Qed.
+
+Lemma written_names : forall (roots : frec -> res anode) d ys,
+  mapM (wxml_of roots) d = Ok ys -> map fst ys = map fst d.
+Proof.
+  induction d as [|x r IH]; intros ys H; simpl in H.
+  - inversion H; reflexivity.
+  - unfold wxml_of at 1 in H. destruct (roots (snd x)) as [t|]; simpl in H; [|discriminate].
+    destruct (mapM (wxml_of roots) r) as [ys0|] eqn:Hr; simpl in H; [|discriminate].
+    inversion H; subst. simpl. f_equal. apply IH; auto.
+Qed.
+
+Lemma written_Forall2 : forall (roots : frec -> res anode) content d ys,
+  (forall p f, In (p, f) d -> last_with_path p content = Some f) ->
+  mapM (wxml_of roots) d = Ok ys ->
+  Forall2 (fun p nm => exists f t, last_with_path p content = Some f /\ roots f = Ok t
+                                   /\ nm = (p, WXml t)) (map fst d) ys.
+Proof.
+  induction d as [|[p f] r IH]; intros ys Hd H; simpl in H.
+  - inversion H; constructor.
+  - unfold wxml_of at 1 in H. cbn [fst snd] in H.
+    destruct (roots f) as [t|] eqn:Ht; simpl in H; [|discriminate].
+    destruct (mapM (wxml_of roots) r) as [ys0|] eqn:Hr; simpl in H; [|discriminate].
+    inversion H; subst. cbn [map fst]. constructor.
+    + exists f, t. split; [apply Hd; left; reflexivity|]. split; [exact Ht|reflexivity].
+    + apply IH; [|reflexivity]. intros p' f' Hin. apply Hd. right. exact Hin.
 Qed.
 
 (* ================================================================== *)
@@ -121,8 +358,8 @@ Proof.
   - apply in_map_iff in Hin. destruct Hin as [[j n'] [E Hf]]. simpl in E. inversion E; subst.
     apply filter_In in Hf. destruct Hf as [Hf _].
     destruct (index_members_sound _ _ _ _ Hf) as [i' [m [-> Hn]]]. exists m. exact Hn.
-  - destruct (mapM_In _ _ _ _ _ Hw _ Hin) as [f [_ Hf]].
-    destruct (roots f); simpl in Hf; inversion Hf.
+  - destruct (mapM_In _ _ _ _ _ Hw _ Hin) as [f [_ Hf]]. unfold wxml_of in Hf.
+    destruct (roots (snd f)); simpl in Hf; inversion Hf.
 Qed.
 
 (* a copied member is one that is not overwritten *)
@@ -136,29 +373,97 @@ Proof.
   - apply in_map_iff in Hin. destruct Hin as [[j n'] [E Hf]]. simpl in E. inversion E; subst.
     apply filter_In in Hf. destruct Hf as [_ Hf]. simpl in Hf.
     apply negb_true_iff in Hf. exact Hf.
-  - destruct (mapM_In _ _ _ _ _ Hw _ Hin) as [f [_ Hf]].
-    destruct (roots f); simpl in Hf; inversion Hf.
+  - destruct (mapM_In _ _ _ _ _ Hw _ Hin) as [f [_ Hf]]. unfold wxml_of in Hf.
+    destruct (roots (snd f)); simpl in Hf; inversion Hf.
 Qed.
 
 (* ================================================================== *)
 (* S2. what is written                                                  *)
 (* ================================================================== *)
+(* one written member per DISTINCT path among the rewritten Files, in order of
+   first occurrence (dedup_names _ [] keeps first occurrences), whose tree is
+   `roots` of the LAST File with that path *)
 Lemma save_written_exact : forall a fs roots out, save_with a fs roots = Ok out ->
+  let content := filter (fun f => mem_str (f_type f) save_overwrite_types) fs in
   exists copied written, out = copied ++ written
     /\ Forall (fun nm => exists i, snd nm = WCopy i) copied
-    /\ mapM (fun f => t <- roots f ;; Ok (f_path f, WXml t))
-            (filter (fun f => mem_str (f_type f) save_overwrite_types) fs) = Ok written.
+    /\ Forall2 (fun p nm => exists f t, last_with_path p content = Some f /\ roots f = Ok t
+                                        /\ nm = (p, WXml t))
+               (dedup_names (map f_path content) []) written.
 Proof.
-  intros a fs roots out H.
+  intros a fs roots out H content.
   destruct (save_with_shape _ _ _ _ H) as [written [Hw ->]].
-  eexists; exists written. split; [reflexivity|]. split; [|exact Hw].
-  apply Forall_forall. intros x Hx. apply in_map_iff in Hx.
-  destruct Hx as [[j n] [<- _]]. exists j. reflexivity.
+  eexists; exists written. split; [reflexivity|]. split.
+  - apply Forall_forall. intros x Hx. apply in_map_iff in Hx.
+    destruct Hx as [[j n] [<- _]]. exists j. reflexivity.
+  - fold is_overwritten in content. fold content in Hw. rewrite <- by_path_keys.
+    apply written_Forall2; [|exact Hw]. intros p f Hin. apply by_path_In. exact Hin.
+Qed.
+
+(* the two directions, in the form the later files use *)
+Lemma save_written_fwd : forall a fs roots out, save_with a fs roots = Ok out ->
+  forall f, In f fs -> mem_str (f_type f) save_overwrite_types = true ->
+  exists f' t,
+    last_with_path (f_path f) (filter (fun f => mem_str (f_type f) save_overwrite_types) fs) = Some f'
+    /\ roots f' = Ok t /\ In (f_path f, WXml t) out.
+Proof.
+  intros a fs roots out H f Hf Hty.
+  destruct (save_with_shape _ _ _ _ H) as [written [Hw ->]].
+  assert (Hin : In f (filter is_overwritten fs)) by (apply filter_In; split; assumption).
+  destruct (last_with_path_In _ _ Hin) as [f' Hf'].
+  pose proof (proj2 (by_path_In _ _ _) Hf') as Hb.
+  destruct (mapM_fwd _ _ _ _ _ Hw _ Hb) as [y [Hy Hyin]].
+  unfold wxml_of in Hy. cbn [fst snd] in Hy.
+  destruct (roots f') as [t|] eqn:Ht; simpl in Hy; [|discriminate]. inversion Hy; subst y.
+  exists f', t. split; [exact Hf'|]. split; [exact Ht|]. apply in_or_app. right. exact Hyin.
+Qed.
+
+Lemma save_written_bwd : forall a fs roots out n t, save_with a fs roots = Ok out ->
+  In (n, WXml t) out ->
+  exists f,
+    last_with_path n (filter (fun f => mem_str (f_type f) save_overwrite_types) fs) = Some f
+    /\ roots f = Ok t.
+Proof.
+  intros a fs roots out n t H Hin.
+  destruct (save_with_shape _ _ _ _ H) as [written [Hw ->]].
+  apply in_app_or in Hin. destruct Hin as [Hin|Hin].
+  - apply in_map_iff in Hin. destruct Hin as [[j n'] [E _]]. discriminate E.
+  - destruct (mapM_In _ _ _ _ _ Hw _ Hin) as [[p f] [Hpf Hy]].
+    unfold wxml_of in Hy. cbn [fst snd] in Hy.
+    destruct (roots f) as [t'|] eqn:Ht; simpl in Hy; [|discriminate]. inversion Hy; subst.
+    exists f. split; [|exact Ht]. apply by_path_In. exact Hpf.
 Qed.
 
 (* ================================================================== *)
 (* S3. names                                                            *)
 (* ================================================================== *)
+Definition is_written_xml (nm : str * wmember) : bool :=
+  match snd nm with WXml _ => true | WCopy _ => false end.
+
+Lemma filter_copied_nil : forall (l : list (nat * str)),
+  filter is_written_xml (map (fun ix => (snd ix, WCopy (fst ix))) l) = [].
+Proof. induction l as [|x r IH]; [reflexivity|]. simpl. exact IH. Qed.
+
+Lemma filter_written_all : forall (roots : frec -> res anode) d ys,
+  mapM (wxml_of roots) d = Ok ys -> filter is_written_xml ys = ys.
+Proof.
+  induction d as [|x r IH]; intros ys H; simpl in H.
+  - inversion H; reflexivity.
+  - unfold wxml_of at 1 in H. destruct (roots (snd x)) as [t|]; simpl in H; [|discriminate].
+    destruct (mapM (wxml_of roots) r) as [ys0|] eqn:Hr; simpl in H; [|discriminate].
+    inversion H; subst. simpl. f_equal. apply IH; auto.
+Qed.
+
+(* EVERY archive, every file list: no path is written twice *)
+Theorem save_written_paths_nodup : forall a fs roots out, save_with a fs roots = Ok out ->
+  NoDup (map fst (filter is_written_xml out)).
+Proof.
+  intros a fs roots out H.
+  destruct (save_with_shape _ _ _ _ H) as [written [Hw ->]].
+  rewrite filter_app, filter_copied_nil, (filter_written_all _ _ _ Hw). cbn [app].
+  rewrite (written_names _ _ _ Hw). apply by_path_NoDup.
+Qed.
+
 Lemma count_occ_filter : forall (f : str -> bool) l x,
   count_occ str_eq_dec (filter f l) x = if f x then count_occ str_eq_dec l x else 0%nat.
 Proof.
@@ -180,30 +485,116 @@ Proof.
   destruct (negb (mem_str n excl)); simpl; [f_equal|]; apply IH.
 Qed.
 
-Lemma mem_str_false_not_In : forall s l, mem_str s l = false <-> ~ In s l.
-Proof.
-  intros s l. split.
-  - intros H Hin. apply mem_str_In in Hin. congruence.
-  - intros H. destruct (mem_str s l) eqn:E; auto. apply mem_str_In in E. contradiction.
-Qed.
-
-(* count formulation *)
-Lemma save_names_count : forall a fs roots out, save_with a fs roots = Ok out ->
+(* count formulation, WITHOUT the hypothesis that the rewritten Files have
+   pairwise distinct paths *)
+Theorem save_names_once_count : forall a fs roots out, save_with a fs roots = Ok out ->
   let content := filter (fun f => mem_str (f_type f) save_overwrite_types) fs in
-  NoDup (map f_path content) ->
   (forall p, In p (map f_path content) -> count_occ str_eq_dec (map fst a) p = 1%nat) ->
   Permutation (map fst out) (map fst a).
 Proof.
-  intros a fs roots out H content Hnd Hone.
+  intros a fs roots out H content Hone.
   destruct (save_with_shape _ _ _ _ H) as [written [Hw ->]].
   fold is_overwritten in content. fold content. fold content in Hw.
   apply (Permutation_count_occ str_eq_dec). intros x.
   rewrite map_app, count_occ_app, copied_names, (written_names _ _ _ Hw), count_occ_filter.
   destruct (mem_str x (map f_path content)) eqn:Hx; simpl.
   - apply mem_str_In in Hx. rewrite (Hone x Hx).
-    apply (proj1 (NoDup_count_occ' str_eq_dec _) Hnd x Hx).
+    apply (proj1 (NoDup_count_occ' str_eq_dec _) (by_path_NoDup content) x).
+    apply by_path_keys_In. exact Hx.
   - apply mem_str_false_not_In in Hx.
-    rewrite (proj1 (count_occ_not_In str_eq_dec _ x) Hx). lia.
+    assert (Hx' : ~ In x (map fst (by_path content))).
+    { intros Hin. apply Hx. apply by_path_keys_In. exact Hin. }
+    rewrite (proj1 (count_occ_not_In str_eq_dec _ x) Hx'). lia.
+Qed.
+
+(* the input's member names, each once *)
+Theorem save_names_once : forall a fs roots out, save_with a fs roots = Ok out ->
+  let content := filter (fun f => mem_str (f_type f) save_overwrite_types) fs in
+  NoDup (map fst a) ->
+  (forall p, In p (map f_path content) -> In p (map fst a)) ->
+  Permutation (map fst out) (map fst a) /\ NoDup (map fst out).
+Proof.
+  intros a fs roots out H content Hnd Hin.
+  assert (Hp : Permutation (map fst out) (map fst a)).
+  { apply (save_names_once_count a fs roots out H). intros p Hp.
+    apply (proj1 (NoDup_count_occ' str_eq_dec _) Hnd p). apply Hin. exact Hp. }
+  split; [exact Hp|]. apply (Permutation_NoDup (Permutation_sym Hp)). exact Hnd.
+Qed.
+
+(* the hypothesis "every rewritten path is a member name" cannot be dropped *)
+Theorem save_names_once_necessary : forall a fs roots out, save_with a fs roots = Ok out ->
+  let content := filter (fun f => mem_str (f_type f) save_overwrite_types) fs in
+  Permutation (map fst out) (map fst a) ->
+  forall p, In p (map f_path content) -> In p (map fst a).
+Proof.
+  intros a fs roots out H content Hp p Hin.
+  destruct (save_with_shape _ _ _ _ H) as [written [Hw ->]].
+  fold is_overwritten in content. fold content in Hw.
+  apply (Permutation_in _ Hp). rewrite map_app. apply in_or_app. right.
+  rewrite (written_names _ _ _ Hw). apply by_path_keys_In. exact Hin.
+Qed.
+
+(* ... and it is automatic whenever `roots` can only succeed on members of the
+   archive: a missing target makes the save fail (KeyError) *)
+Theorem save_names_once_roots : forall a fs roots out,
+  (forall f t, roots f = Ok t -> In (f_path f) (map fst a)) ->
+  save_with a fs roots = Ok out -> NoDup (map fst a) ->
+  Permutation (map fst out) (map fst a) /\ NoDup (map fst out).
+Proof.
+  intros a fs roots out Hroots H Hnd.
+  apply (save_names_once a fs roots out H Hnd).
+  intros p Hp. apply in_map_iff in Hp. destruct Hp as [f [<- Hf]].
+  apply filter_In in Hf. destruct Hf as [Hf Hty].
+  destruct (save_written_fwd _ _ _ _ H f Hf Hty) as [f' [t [Hl [Ht _]]]].
+  apply last_with_path_Some in Hl. destruct Hl as [_ <-]. exact (Hroots _ _ Ht).
+Qed.
+
+Lemma zread_In : forall a n m, zread a n = Some m -> In n (map fst a).
+Proof.
+  induction a as [|[n0 m0] r IH]; intros n m H; cbn [zread] in H; [discriminate|].
+  cbn [map fst]. destruct (zread r n) as [m'|] eqn:Hr.
+  - right. exact (IH _ _ Hr).
+  - destruct (str_eqb n0 n) eqn:E; [|discriminate]. left. apply str_eqb_eq. exact E.
+Qed.
+
+Lemma part_root_member : forall a fs o f t, part_root a fs o f = Ok t -> In (f_path f) (map fst a).
+Proof.
+  intros a fs o f t H. unfold part_root, member_xml in H.
+  destruct (zread a (f_path f)) as [m|] eqn:Hz; [|discriminate]. exact (zread_In _ _ _ Hz).
+Qed.
+
+(* DocxReader.save on an archive whose member names are pairwise distinct:
+   exactly the input's member names, each once — no further hypothesis *)
+Theorem save_names_once_save : forall a o out,
+  save a o = Ok out -> NoDup (map fst a) ->
+  Permutation (map fst out) (map fst a) /\ NoDup (map fst out).
+Proof.
+  intros a o out H Hnd. unfold save in H.
+  destruct (files a) as [fs|] eqn:Hfs; simpl in H; [|discriminate].
+  apply (save_names_once_roots a fs (part_root a fs o) out); auto.
+  intros f t. apply part_root_member.
+Qed.
+
+Theorem replace_docx_names_once : forall a o pairs out,
+  replace_docx a o pairs = Ok out -> NoDup (map fst a) ->
+  Permutation (map fst out) (map fst a) /\ NoDup (map fst out).
+Proof.
+  intros a o pairs out H Hnd. unfold replace_docx in H.
+  destruct (files a) as [fs|] eqn:Hfs; simpl in H; [|discriminate].
+  refine (save_names_once_roots a fs _ out _ H Hnd).
+  intros f t Ht. destruct (part_root a fs o f) as [t0|] eqn:Hp; simpl in Ht; [|discriminate].
+  exact (part_root_member _ _ _ _ _ Hp).
+Qed.
+
+(* the statements from before the fix are still true (their first hypothesis
+   is no longer needed) *)
+Lemma save_names_count : forall a fs roots out, save_with a fs roots = Ok out ->
+  let content := filter (fun f => mem_str (f_type f) save_overwrite_types) fs in
+  NoDup (map f_path content) ->
+  (forall p, In p (map f_path content) -> count_occ str_eq_dec (map fst a) p = 1%nat) ->
+  Permutation (map fst out) (map fst a).
+Proof.
+  intros a fs roots out H content _ Hone. exact (save_names_once_count a fs roots out H Hone).
 Qed.
 
 Lemma unique_index_count : forall (l : list str) p,
@@ -248,25 +639,89 @@ Proof.
   - intros j Hj. apply Hu. apply nth_error_map_fst; exact Hj.
 Qed.
 
-(* two relationships pointing at one content part write that member twice *)
+(* ---------- two relationships pointing at one content part ---------- *)
+(* a checker for Permutation on concrete lists *)
+Definition perm_check (l1 l2 : list str) : bool :=
+  forallb (fun x => Nat.eqb (count_occ str_eq_dec l1 x) (count_occ str_eq_dec l2 x)) (l1 ++ l2).
+
+Lemma perm_check_sound : forall l1 l2, perm_check l1 l2 = true -> Permutation l1 l2.
+Proof.
+  intros l1 l2 H. apply (Permutation_count_occ str_eq_dec). intros x.
+  destruct (in_dec str_eq_dec x (l1 ++ l2)) as [Hin|Hnot].
+  - unfold perm_check in H. rewrite forallb_forall in H. apply Nat.eqb_eq. exact (H x Hin).
+  - rewrite (proj1 (count_occ_not_In str_eq_dec l1 x)), (proj1 (count_occ_not_In str_eq_dec l2 x)).
+    + reflexivity.
+    + intros Hin. apply Hnot. apply in_or_app. right. exact Hin.
+    + intros Hin. apply Hnot. apply in_or_app. left. exact Hin.
+Qed.
+
 Section Dup.
   Import String.StringSyntax.
   Local Open Scope string_scope.
-  Definition dup_archive : archive := [(s2l "d.xml", MRaw 0)].
+  Definition dup_path : str := s2l "d.xml".
+  Definition dup_archive : archive := [(dup_path, MRaw 0)].
   Definition dup_frec (id : String.string) : frec :=
     {| f_id := s2l id; f_type := s2l "officeDocument"; f_target := s2l "d.xml"; f_dir := s2l "" |}.
   Definition dup_files : list frec := [dup_frec "rId1"; dup_frec "rId2"].
-  Definition dup_out : list (str * wmember) :=
-    [(s2l "d.xml", WXml (AX None)); (s2l "d.xml", WXml (AX None))].
+  (* the tree tells which File it was computed from *)
+  Definition dup_roots (f : frec) : res anode := Ok (AX (Some (f_id f))).
+  (* before the fix: [("d.xml", <rId1>); ("d.xml", <rId2>)] *)
+  Definition dup_out : list (str * wmember) := [(s2l "d.xml", WXml (AX (Some (s2l "rId2"))))].
+
+  (* the archive of the Example: word/header1.xml is the target of two
+     relationships of word/document.xml *)
+  Definition sh_W : str := s2l "W".
+  Definition sh_wel (l : String.string) (text : option String.string) (kids : list rnode) : rnode :=
+    RE (Some s_w) (Some sh_W) (s2l l) [(Some s_w, sh_W)] [] (option_map s2l text) None kids.
+  Definition sh_rel (id ty tg : String.string) : rnode :=
+    RE None None (s2l "Relationship") []
+       [((None, s_Id), s2l id); ((None, s_Type), s2l ty); ((None, s_Target), s2l tg)]
+       None None [].
+  Definition sh_rels (ks : list rnode) : rnode :=
+    RE None (Some (s2l "t/relationships")) (s2l "Relationships") [] [] None None ks.
+  Definition sh_par (t : String.string) : rnode :=
+    sh_wel "p" None [sh_wel "r" None [sh_wel "t" (Some t) []]].
+  Definition sh_archive : archive :=
+    [(s2l "[Content_Types].xml", MRaw 1);
+     (s2l "_rels/.rels", MXml (sh_rels [sh_rel "rId1" "t/officeDocument" "word/document.xml"]));
+     (s2l "word/_rels/document.xml.rels",
+        MXml (sh_rels [sh_rel "rId7" "t/header" "header1.xml";
+                       sh_rel "rId8" "t/header" "header1.xml";
+                       sh_rel "rId9" "t/image" "media/image1.png"]));
+     (s2l "word/document.xml", MXml (sh_wel "document" None [sh_wel "body" None [sh_par "body"]]));
+     (s2l "word/header1.xml", MXml (sh_wel "hdr" None [sh_par "head"]));
+     (s2l "word/media/image1.png", MRaw 2)].
+  Definition sh_opts : opts := {| o_html := false; o_dup := true |}.
+  Definition sh_header : str := s2l "word/header1.xml".
 End Dup.
 
-Lemma save_duplicate_refuted : exists a fs roots out,
-  save_with a fs roots = Ok out /\ ~ NoDup (map fst out) /\ NoDup (map fst a).
+(* replaces save_duplicate_refuted (before the fix the member was written once
+   per relationship): the path is written exactly once, with the LAST File's tree *)
+Lemma save_duplicate_repaired :
+  map f_path (filter is_overwritten dup_files) = [dup_path; dup_path]
+  /\ save_with dup_archive dup_files dup_roots = Ok dup_out
+  /\ count_occ str_eq_dec (map fst dup_out) (dup_path) = 1%nat
+  /\ NoDup (map fst dup_out) /\ NoDup (map fst dup_archive).
 Proof.
-  exists dup_archive, dup_files, (fun _ => Ok (AX None)), dup_out.
+  split; [vm_compute; reflexivity|]. split; [vm_compute; reflexivity|].
   split; [vm_compute; reflexivity|]. split.
-  - vm_compute. intros Hnd. inversion Hnd as [|x l Hnot _]; subst. apply Hnot. left; reflexivity.
   - vm_compute. constructor; [intros []|constructor].
+  - vm_compute. constructor; [intros []|constructor].
+Qed.
+
+Example save_shared_header_example :
+  exists fs out,
+    files sh_archive = Ok fs
+    /\ count_occ str_eq_dec (map f_path (filter is_overwritten fs)) sh_header = 2%nat
+    /\ save sh_archive sh_opts = Ok out
+    /\ Permutation (map fst out) (map fst sh_archive)
+    /\ count_occ str_eq_dec (map fst out) sh_header = 1%nat.
+Proof.
+  do 2 eexists.
+  split; [vm_compute; reflexivity|]. split; [vm_compute; reflexivity|].
+  split; [vm_compute; reflexivity|]. split.
+  - apply perm_check_sound. vm_compute. reflexivity.
+  - vm_compute. reflexivity.
 Qed.
 
 (* ================================================================== *)
@@ -511,9 +966,20 @@ Print Assumptions save_copies_exact.
 Print Assumptions save_copy_sound.
 Print Assumptions save_copy_not_overwritten.
 Print Assumptions save_written_exact.
+Print Assumptions save_written_fwd.
+Print Assumptions save_written_bwd.
+Print Assumptions last_with_path_spec.
+Print Assumptions save_written_paths_nodup.
+Print Assumptions save_names_once_count.
+Print Assumptions save_names_once.
+Print Assumptions save_names_once_necessary.
+Print Assumptions save_names_once_roots.
+Print Assumptions save_names_once_save.
+Print Assumptions replace_docx_names_once.
 Print Assumptions save_names_count.
 Print Assumptions save_names.
-Print Assumptions save_duplicate_refuted.
+Print Assumptions save_duplicate_repaired.
+Print Assumptions save_shared_header_example.
 Print Assumptions splitlines_join.
 Print Assumptions splitlines_join_trailing_lost.
 Print Assumptions splitlines_join_trailing.
